@@ -202,6 +202,13 @@ pub open spec fn op_val<T: NumberBase>(op: u8, a: int, b: int) -> int {
     else if op == MTBDDOp::Min as u8 { s_min::<T>(a, b) }
     else { s_max::<T>(a, b) }
 }
+// oracles named by the API function (so that a wrapper calling the wrong operator is caught)
+pub open spec fn api_add<T: NumberBase>(a: int, b: int) -> int { T::s_add(a, b) }
+pub open spec fn api_sub<T: NumberBase>(a: int, b: int) -> int { T::s_sub(a, b) }
+pub open spec fn api_mul<T: NumberBase>(a: int, b: int) -> int { T::s_mul(a, b) }
+pub open spec fn api_div<T: NumberBase>(a: int, b: int) -> int { T::s_div(a, b) }
+pub open spec fn api_min<T: NumberBase>(a: int, b: int) -> int { s_min::<T>(a, b) }
+pub open spec fn api_max<T: NumberBase>(a: int, b: int) -> int { s_max::<T>(a, b) }
 pub open spec fn is_bin(op: u8) -> bool { MTBDDOp::Add as u8 <= op <= MTBDDOp::Max as u8 }
 pub open spec fn commutative(op: u8) -> bool { op == MTBDDOp::Add as u8 || op == MTBDDOp::Mul as u8 || op == MTBDDOp::Min as u8 || op == MTBDDOp::Max as u8 }
 pub open spec fn res_top_ok2(r: Tree, a: Tree, b: Tree) -> bool { top(r) >= top(a) || top(r) >= top(b) }
@@ -524,6 +531,76 @@ where M: Manager<Terminal = T>, M::InnerNode: HasLevel,
     requires wf(edge.view()), forall|a: T, b: T| cloned(a, b) ==> #[trigger] a.val() == #[trigger] b.val(),
     ensures r.val() == val_at(edge.view(), |l: int| !choices.spec_contains(l)),
     decreases edge.view(),
+//@end
+//@fn file=crates/oxidd-rules-mtbdd/src/apply_rec.rs path=impl:PseudoBooleanFunction~for~MTBDDFunction<F>/fn:add_edge props=C10
+//@header
+fn add_edge<M, T>(manager: &M, lhs: &M::Edge, rhs: &M::Edge) -> (res: AllocResult<M::Edge>)
+where M: Manager<Terminal = T> + HasApplyCache<M, MTBDDOp>, M::InnerNode: HasLevel, T: NumberBase,
+//@spec
+    requires num_laws::<T>(), edge_ok::<M::Edge>(), ok(lhs.view(), manager.num_levels_spec()), ok(rhs.view(), manager.num_levels_spec()),
+    ensures res is Ok ==> ok(res->Ok_0.view(), manager.num_levels_spec())
+        && forall|env: Env| #[trigger] val_at(res->Ok_0.view(), env) == api_add::<T>(val_at(lhs.view(), env), val_at(rhs.view(), env)),
+//@end
+//@fn file=crates/oxidd-rules-mtbdd/src/apply_rec.rs path=impl:PseudoBooleanFunction~for~MTBDDFunction<F>/fn:sub_edge props=C10
+//@header
+fn sub_edge<M, T>(manager: &M, lhs: &M::Edge, rhs: &M::Edge) -> (res: AllocResult<M::Edge>)
+where M: Manager<Terminal = T> + HasApplyCache<M, MTBDDOp>, M::InnerNode: HasLevel, T: NumberBase,
+//@spec
+    requires num_laws::<T>(), edge_ok::<M::Edge>(), ok(lhs.view(), manager.num_levels_spec()), ok(rhs.view(), manager.num_levels_spec()),
+    ensures res is Ok ==> ok(res->Ok_0.view(), manager.num_levels_spec())
+        && forall|env: Env| #[trigger] val_at(res->Ok_0.view(), env) == api_sub::<T>(val_at(lhs.view(), env), val_at(rhs.view(), env)),
+//@end
+//@fn file=crates/oxidd-rules-mtbdd/src/apply_rec.rs path=impl:PseudoBooleanFunction~for~MTBDDFunction<F>/fn:mul_edge props=C10
+//@header
+fn mul_edge<M, T>(manager: &M, lhs: &M::Edge, rhs: &M::Edge) -> (res: AllocResult<M::Edge>)
+where M: Manager<Terminal = T> + HasApplyCache<M, MTBDDOp>, M::InnerNode: HasLevel, T: NumberBase,
+//@spec
+    requires num_laws::<T>(), edge_ok::<M::Edge>(), ok(lhs.view(), manager.num_levels_spec()), ok(rhs.view(), manager.num_levels_spec()),
+    ensures res is Ok ==> ok(res->Ok_0.view(), manager.num_levels_spec())
+        && forall|env: Env| #[trigger] val_at(res->Ok_0.view(), env) == api_mul::<T>(val_at(lhs.view(), env), val_at(rhs.view(), env)),
+//@end
+//@fn file=crates/oxidd-rules-mtbdd/src/apply_rec.rs path=impl:PseudoBooleanFunction~for~MTBDDFunction<F>/fn:div_edge props=C10
+//@header
+fn div_edge<M, T>(manager: &M, lhs: &M::Edge, rhs: &M::Edge) -> (res: AllocResult<M::Edge>)
+where M: Manager<Terminal = T> + HasApplyCache<M, MTBDDOp>, M::InnerNode: HasLevel, T: NumberBase,
+//@spec
+    requires num_laws::<T>(), edge_ok::<M::Edge>(), ok(lhs.view(), manager.num_levels_spec()), ok(rhs.view(), manager.num_levels_spec()),
+    ensures res is Ok ==> ok(res->Ok_0.view(), manager.num_levels_spec())
+        && forall|env: Env| #[trigger] val_at(res->Ok_0.view(), env) == api_div::<T>(val_at(lhs.view(), env), val_at(rhs.view(), env)),
+//@end
+//@fn file=crates/oxidd-rules-mtbdd/src/apply_rec.rs path=impl:PseudoBooleanFunction~for~MTBDDFunction<F>/fn:min_edge props=C10
+//@header
+fn min_edge<M, T>(manager: &M, lhs: &M::Edge, rhs: &M::Edge) -> (res: AllocResult<M::Edge>)
+where M: Manager<Terminal = T> + HasApplyCache<M, MTBDDOp>, M::InnerNode: HasLevel, T: NumberBase,
+//@spec
+    requires num_laws::<T>(), edge_ok::<M::Edge>(), ok(lhs.view(), manager.num_levels_spec()), ok(rhs.view(), manager.num_levels_spec()),
+    ensures res is Ok ==> ok(res->Ok_0.view(), manager.num_levels_spec())
+        && forall|env: Env| #[trigger] val_at(res->Ok_0.view(), env) == api_min::<T>(val_at(lhs.view(), env), val_at(rhs.view(), env)),
+//@end
+//@fn file=crates/oxidd-rules-mtbdd/src/apply_rec.rs path=impl:PseudoBooleanFunction~for~MTBDDFunction<F>/fn:max_edge props=C10
+//@header
+fn max_edge<M, T>(manager: &M, lhs: &M::Edge, rhs: &M::Edge) -> (res: AllocResult<M::Edge>)
+where M: Manager<Terminal = T> + HasApplyCache<M, MTBDDOp>, M::InnerNode: HasLevel, T: NumberBase,
+//@spec
+    requires num_laws::<T>(), edge_ok::<M::Edge>(), ok(lhs.view(), manager.num_levels_spec()), ok(rhs.view(), manager.num_levels_spec()),
+    ensures res is Ok ==> ok(res->Ok_0.view(), manager.num_levels_spec())
+        && forall|env: Env| #[trigger] val_at(res->Ok_0.view(), env) == api_max::<T>(val_at(lhs.view(), env), val_at(rhs.view(), env)),
+//@end
+//@fn file=crates/oxidd-rules-mtbdd/src/apply_rec.rs path=impl:PseudoBooleanFunction~for~MTBDDFunction<F>/fn:restrict_edge props=C10
+//@header
+fn restrict_edge<M, T>(manager: &M, root: &M::Edge, vars: &M::Edge) -> (res: AllocResult<M::Edge>)
+where M: Manager<Terminal = T> + HasApplyCache<M, MTBDDOp>, M::InnerNode: HasLevel, T: NumberBase,
+//@spec
+    requires num_laws::<T>(), edge_ok::<M::Edge>(), ok(root.view(), manager.num_levels_spec()), ok(vars.view(), manager.num_levels_spec()),
+    ensures res is Ok ==> restrict_post::<T>(root.view(), vars.view(), manager.num_levels_spec(), res->Ok_0.view()),
+//@end
+//@fn file=crates/oxidd-rules-mtbdd/src/apply_rec.rs path=impl:PseudoBooleanFunction~for~MTBDDFunction<F>/fn:ite_edge props=C10
+//@header
+fn ite_edge<M, T>(manager: &M, if_edge: &M::Edge, then_edge: &M::Edge, else_edge: &M::Edge) -> (res: AllocResult<M::Edge>)
+where M: Manager<Terminal = T> + HasApplyCache<M, MTBDDOp>, M::InnerNode: HasLevel, T: NumberBase,
+//@spec
+    requires num_laws::<T>(), edge_ok::<M::Edge>(), ok(if_edge.view(), manager.num_levels_spec()), ok(then_edge.view(), manager.num_levels_spec()), ok(else_edge.view(), manager.num_levels_spec()),
+    ensures res is Ok ==> ite_post::<T>(if_edge.view(), then_edge.view(), else_edge.view(), manager.num_levels_spec(), res->Ok_0.view()),
 //@end
 } // mod apply_rec
 } // mod rules
